@@ -315,6 +315,7 @@ fn oracle(c: &Case, rec: &Rec) -> R {
                 ScSpec::Small(v) => *v as i128,
                 ScSpec::Rand(r) => (*r >> 40) as i128 + 1,
                 ScSpec::Zero => 1,
+                _ => 1,
             };
             if *cust {
                 ncb += dv;
